@@ -48,6 +48,8 @@ func checkC16(c *Ctx) {
 	c.guard(p, "C16.verifyguard", "DLEQ accepted only if the composites could be computed", vbf, GuardSpec{Assumes: []Assume{calleeAssume(latNonNil, 2, "(zk/dleq.Params).computeComposites")}})
 	c.guard(p, "C16.verifyguard", "single-statement Verify delegates to VerifyBatch", p.Func("zk/dleq", "Verifier", "Verify"), GuardSpec{Assumes: []Assume{calleeAssume(latFalse, -1, vb)}})
 	c.guard(p, "C16.verifyguard", "Schnorr proof accepted only if V == rG + c*kG", p.Func("zk/dl", "", "Verify"), GuardSpec{Assumes: []Assume{calleeAssume(latFalse, -1, "invoke (group.Element).IsEqual")}})
+	// an encoded proof has exactly two scalars: trailing bytes make a second encoding of the same proof
+	c.lenReject(p, "C16.verifyguard", p.Func("zk/dleq", "Proof", "UnmarshalBinary"), "data", false)
 	qv := p.Func("zk/qndleq", "Proof", "Verify")
 	c.guardEachSite(p, "C16.verifyguard", "non-invertible statement element rejected", qv, -1, latNil, "(*math/big.Int).ModInverse")
 	c.guard(p, "C16.verifyguard", "QN-DLEQ accepted only if the recomputed challenge equals C", qv, GuardSpec{Assumes: []Assume{calleeAssume(latInt(1), -1, "(*math/big.Int).Cmp")}})
